@@ -293,8 +293,10 @@ def run(ctx):
     items = sorted(found.items(), key=lambda kv: repr(kv[0]))
     ctx.flag("instances_found", [repr(k) for k, _ in items])
     rng = ctx.rng
-    n_dur = ctx.pick(24, 2000)
+    n_dur = ctx.pick(72, 2000)
     durations = [f32(x) for x in (1.0, 0.5, 2.0, 10.0, 30.0, 60.0, 1 / 3, 0.1, 1e-3, 3.4e38, 1.17549435e-38, 65535.0, 7.0)]
+    # whole seconds and mantissas of every shape (k/32 times a power of two): what animations are actually long
+    durations += [f32(float(k)) for k in range(3, 48)] + [f32(k / 32.0 * 2 ** e) for k in (33, 37, 45, 53, 61) for e in (0, 3, 5)]
     while len(durations) < n_dur:
         durations.append(f32(rng.choice([rng.uniform(0.01, 120.0), 10 ** rng.uniform(-6, 6), rng.uniform(0.5, 2.0)])))
     work = []
